@@ -1,12 +1,96 @@
-(** C12 - memory capacity limits of the selected device are enforced exactly (examples; theorems follow). *)
-From Coq Require Import List ZArith NArith String.
+(** C12 - memory capacity limits of the selected device are enforced exactly.
+    Property theorems only (the proofs are short unfoldings and are given here). *)
+From Coq Require Import List ZArith NArith String Bool Lia.
 Import ListNotations.
-Require Import AvraV.Model.Base AvraV.Model.Ast AvraV.Model.Passes.
+Require Import AvraV.Model.Base AvraV.Model.Ast AvraV.Model.Device AvraV.Model.Eval AvraV.Model.Parse AvraV.Model.Passes.
+Require Import AvraV.Gen.Devices AvraV.Gen.IncParts.
+Open Scope N_scope.
+
+(** what the passes produced *)
+Definition passes (fuel : nat) (inc : str -> pstate -> res pstate) (st : pstate) : res (pstate * p1 * p2) :=
+  do s0 <- pass0 fuel inc (macros st) 64 (non_empty (segs st))
+             {| segs := []; macro_name := []; macros := []; msgs := msgs st; pcx := pcx st |};
+  do r1 <- pass1 (pcx s0) (non_empty (segs s0));
+  do r2 <- pass2 fuel (p1_ctx r1) (p1_segs r1);
+  Ok (s0, r1, r2).
+
+(** The build succeeds IF AND ONLY IF the passes succeed and the three extents fit the device that
+    is selected (the default one when none is): flash image <= 2 * flash words, EEPROM image <=
+    EEPROM bytes, extent of the data segment <= RAM bytes; and a successful build reports exactly
+    that device's sizes, the images of pass 2 and the RAM extent of pass 1.  For every program. *)
+Theorem C12_limits : forall fuel inc st b,
+  build_from_parsed fuel inc st = Ok b <->
+  exists s0 r1 r2, passes fuel inc st = Ok (s0, r1, r2) /\
+    let d := dev (p2_ctx r2) in
+    N.of_nat (length (p2_code r2)) <= 2 * flash_size d /\
+    N.of_nat (length (p2_eeprom r2)) <= eeprom_size d /\
+    p1_ram r1 <= ram_size d /\
+    b = {| b_code := p2_code r2; b_eeprom := p2_eeprom r2; b_flash := flash_size d; b_eeprom_size := eeprom_size d;
+           b_ram := ram_size d; b_ram_filling := p1_ram r1; b_messages := msgs s0 |}.
+Proof.
+  intros fuel inc st b. unfold build_from_parsed, passes.
+  destruct (pass0 _ _ _ _ _ _) as [s0| | |]; cbn [bind]; try (split; [discriminate | intros (? & ? & ? & H & _); discriminate]).
+  destruct (pass1 _ _) as [r1| | |]; cbn [bind]; try (split; [discriminate | intros (? & ? & ? & H & _); discriminate]).
+  destruct (pass2 _ _ _) as [r2| | |]; cbn [bind]; try (split; [discriminate | intros (? & ? & ? & H & _); discriminate]).
+  split.
+  - intros H.
+    destruct (flash_size (dev (p2_ctx r2)) * 2 <? N.of_nat (length (p2_code r2))) eqn:E1; [discriminate|].
+    destruct (eeprom_size (dev (p2_ctx r2)) <? N.of_nat (length (p2_eeprom r2))) eqn:E2; [discriminate|].
+    destruct (ram_size (dev (p2_ctx r2)) <? p1_ram r1) eqn:E3; [discriminate|].
+    injection H as <-. exists s0, r1, r2. split; [reflexivity|]. cbv zeta.
+    apply N.ltb_ge in E1, E2, E3. repeat split; try lia.
+  - intros (s0' & r1' & r2' & H & Hb). injection H as <- <- <-. cbv zeta in Hb. destruct Hb as (H1 & H2 & H3 & ->).
+    replace (flash_size (dev (p2_ctx r2)) * 2 <? N.of_nat (length (p2_code r2))) with false by (symmetry; apply N.ltb_ge; lia).
+    replace (eeprom_size (dev (p2_ctx r2)) <? N.of_nat (length (p2_eeprom r2))) with false by (symmetry; apply N.ltb_ge; lia).
+    replace (ram_size (dev (p2_ctx r2)) <? p1_ram r1) with false by (symmetry; apply N.ltb_ge; lia).
+    reflexivity.
+Qed.
+Print Assumptions C12_limits.
+
+(** RAM usage is the extent of the data segment: the final data location counter minus the RAM
+    start of the device, as computed by pass 1 (and pass 1 itself refuses a layout that exceeds a
+    memory, before anything is emitted). *)
+Theorem C12_pass1_capacity : forall c segments r,
+  pass1 c segments = Ok r -> p1_ram r <= ram_size (dev c).
+Proof.
+  intros c segments r. unfold pass1.
+  destruct (fold_left _ _ _) as [[[[[c' co] dofs] eo] out]| | |]; cbn [bind]; try discriminate.
+  destruct (flash_size (dev c) <? co); [discriminate|].
+  destruct (eeprom_size (dev c) <? eo); [discriminate|].
+  destruct (ram_size (dev c) <? dofs - ram_start (dev c)) eqn:E; [discriminate|].
+  intros [= <-]. cbn [p1_ram]. apply N.ltb_ge in E. exact E.
+Qed.
+Print Assumptions C12_pass1_capacity.
+
+(** Selecting a device: unknown names and a second selection are errors naming the line. *)
+Theorem C12_device_once : forall fuel inc st line name,
+  (lookup name devices = None \/ device_eqb (dev (pcx st)) default_device = false) ->
+  directive_parse fuel inc DDevice (OpList [PE (EIdent name)]) st line = Err (Some line).
+Proof.
+  intros fuel inc st line name H. unfold directive_parse. cbn [first_op hd_error].
+  destruct (lookup name devices); [|reflexivity]. destruct H as [H | H]; [discriminate|]. rewrite H. reflexivity.
+Qed.
+Print Assumptions C12_device_once.
+
+(** Every shipped part-definition file whose device is in the table declares the figures the table
+    enforces (regenerated from includes/*def.inc and from the table on every run). *)
+Definition agrees (o : option N) (v : N) : bool := match o with Some x => x =? v | None => true end.
+Theorem C12_parts :
+  forallb (fun p => let '(_, name, fl, rs, rz, ee) := p in
+                    match lookup name devices with
+                    | Some d => agrees fl (flash_size d) && agrees rs (ram_start d) && agrees rz (ram_size d) && agrees ee (eeprom_size d)
+                    | None => true
+                    end) inc_parts = true.
+Proof. vm_compute. reflexivity. Qed.
+
 Definition builds (src : string) : bool := is_ok (build_str 200 (list_ascii_of_string src)).
 Definition nl := String (Ascii.ascii_of_N 10) EmptyString.
 Example C12_examples :
   builds (".device ATtiny13" ++ nl ++ ".org 511" ++ nl ++ "nop" ++ nl) = true /\
   builds (".device ATtiny13" ++ nl ++ ".org 512" ++ nl ++ "nop" ++ nl) = false /\
   builds (".device ATtiny13" ++ nl ++ ".dseg" ++ nl ++ ".byte 64" ++ nl) = true /\
-  builds (".device ATtiny13" ++ nl ++ ".dseg" ++ nl ++ ".byte 65" ++ nl) = false.
+  builds (".device ATtiny13" ++ nl ++ ".dseg" ++ nl ++ ".byte 65" ++ nl) = false /\
+  builds (".device ATtiny13" ++ nl ++ ".eseg" ++ nl ++ ".byte 64" ++ nl) = true /\
+  builds (".device ATtiny13" ++ nl ++ ".eseg" ++ nl ++ ".byte 65" ++ nl) = false /\
+  (0 <? N.of_nat (length (filter (fun p => match lookup (snd (fst (fst (fst (fst p))))) devices with Some _ => true | None => false end) inc_parts))) = true.
 Proof. vm_compute. repeat split; reflexivity. Qed.
